@@ -18,7 +18,7 @@
    body's annotation; since fix 5b8c76f of /repo the checker rejects such a main, so for CHECKED programs this
    clause is implied: Proof/Fun2CoreTyChecked.v prog_tyguard_src).
    There is NO capture guard any more (it was the negation of [shadowing_risk], the syntactic detector of the
-   former finding capture-under-binder, repaired in /repo by <commitcap>): the translation never places a
+   former finding capture-under-binder, repaired in /repo by d5d4151): the translation never places a
    continuation under a let variable / clause parameter whose name is free in it - it names the continuation first.
    ====================================================================================== *)
 From Coq Require Import List ZArith NArith String Bool.
@@ -227,7 +227,7 @@ Section TyGuard.
       end.
 
   (* one definition: parameters pairwise distinct and of declared types, body typed at the return type
-     (main: at i64, and no return continuation).  No capture clause: until fix <commitcap> of /repo the guard also
+     (main: at i64, and no return continuation).  No capture clause: until fix d5d4151 of /repo the guard also
      demanded [negb (shadowing_risk ..)]; the repaired translation keeps a continuation outside of binders whose names
      it mentions, so shadowing is allowed *)
   Definition def_tyguard (d : fdef) : bool :=
